@@ -1483,15 +1483,15 @@ Lemma static_rmdir_tmp : forall d, is_tmp d = true -> Forall static_ok (rmdir_op
 Proof. intros d T. unfold rmdir_ops. repeat constructor; intros s; simpl; auto. destruct d; auto; discriminate. Qed.
 
 (* ---- Save ---- *)
-Lemma cmd_save : forall s i n t tr oc, J s ->
-  fin (exec s (save_ops i n)) = (t, tr, oc) -> allowed_run s tr /\ t = run s tr /\ J t.
+Lemma cmd_save_body : forall s i body t tr oc, J s ->
+  fin (exec s (save_ops_body i body)) = (t, tr, oc) -> allowed_run s tr /\ t = run s tr /\ J t.
 Proof.
-  intros [l r] i n t tr oc (G & HS & HG) H.
-  set (d := DGen i) in *. set (body := repeat T_BODY (N.to_nat n)) in *.
+  intros [l r] i body t tr oc (G & HS & HG) H.
+  set (d := DGen i) in *.
   set (l1 := fs_syncroot (fs_mkdir d l)).
-  assert (E : exec (mkS l r) (save_ops i n) =
-              (mkS (in_dir d (apply_local (writer_fs d (FSnap i) body)) l1) r, save_ops i n, true)).
-  { unfold save_ops. rewrite exec_app. fold d. fold body.
+  assert (E : exec (mkS l r) (save_ops_body i body) =
+              (mkS (in_dir d (apply_local (writer_fs d (FSnap i) body)) l1) r, save_ops_body i body, true)).
+  { unfold save_ops_body. rewrite exec_app. fold d.
     assert (E1 : exec (mkS l r) (mktemp_ops d) = (mkS l1 r, mktemp_ops d, true)) by reflexivity.
     rewrite E1. change (writer_ops d (FSnap i) body) with (map OFs (writer_fs d (FSnap i) body)).
     rewrite (exec_local _ l1 r d).
@@ -1499,10 +1499,10 @@ Proof.
     - apply has_dir_mkdir_sync.
     - repeat constructor. }
   rewrite E in H. simpl in H. inversion H; subst t tr oc; clear H.
-  assert (A : allowed_run (mkS l r) (save_ops i n)).
-  { apply allowed_run_static. unfold save_ops. apply Forall_app. split.
+  assert (A : allowed_run (mkS l r) (save_ops_body i body)).
+  { apply allowed_run_static. unfold save_ops_body. apply Forall_app. split.
     - apply static_mktemp. reflexivity.
-    - change (writer_ops (DGen i) (FSnap i) (repeat T_BODY (N.to_nat n))) with (map OFs (writer_fs d (FSnap i) body)).
+    - change (writer_ops (DGen i) (FSnap i) body) with (map OFs (writer_fs d (FSnap i) body)).
       apply static_local_tmp with (d := d); [reflexivity | repeat constructor]. }
   pose proof (exec_run _ _ _ _ _ E) as R.
   split; auto. split; auto. split; [|split].
@@ -1514,6 +1514,10 @@ Proof.
     + apply d_is_neq in E2. apply mkdir_sync_in in Ho. destruct Ho as [V|[o0 [Ho0 ->]]]; [contradiction|].
       simpl. unfold GenGood in HG. simpl in HG. rewrite Forall_forall in HG. apply HG. exact Ho0.
 Qed.
+
+Lemma cmd_save : forall s i n t tr oc, J s ->
+  fin (exec s (save_ops i n)) = (t, tr, oc) -> allowed_run s tr /\ t = run s tr /\ J t.
+Proof. intros s i n. unfold save_ops. apply cmd_save_body. Qed.
 
 Lemma triple_eq : forall {A B C} (a a' : A) (b b' : B) (c c' : C),
   (a, b, c) = (a', b', c') -> a = a' /\ b = b' /\ c = c'.
@@ -1829,6 +1833,193 @@ Proof.
   - unfold GenGood. simpl. unfold l2, l1. repeat (apply in_dir_gen_other; [discriminate|]). exact HG.
 Qed.
 
+(* ---- a received image with an external file ---- *)
+Lemma chunk_sync_fact : chunk_save_syncs_each_file = true.
+Proof. reflexivity. Qed.
+
+Lemma apply_local_app : forall a b fl, apply_local (a ++ b) fl = apply_local b (apply_local a fl).
+Proof. intros. unfold apply_local. apply fold_left_app. Qed.
+
+(* operations on the file named f' (or a directory sync) *)
+Definition about (f' : fname) (o : fsop) : Prop :=
+  match o with
+  | FCreate _ n | FWrite _ n _ | FWriteAt _ n _ _ | FSyncFile _ n => n = f'
+  | FSyncDir _ => True
+  | _ => False
+  end.
+
+Lemma Tr_map_other : forall f v w (h : fobj -> fobj) fl,
+  (forall x, f_vn x = Some f -> h x = x) -> (forall x, f_vn (h x) = Some f -> f_vn x = Some f) ->
+  Tr f v w fl -> Tr f v w (map h fl).
+Proof.
+  intros f v w h fl H1 H2 [E F]. split.
+  - rewrite Exists_map_iff. rewrite Exists_exists in *. destruct E as [x [Hx V]]. exists x. split; auto. rewrite H1; auto.
+  - rewrite Forall_map_iff. eapply Forall_impl_in; [exact F|]. intros x _ P V.
+    pose proof (H2 x V) as V0. rewrite (H1 x V0). auto.
+Qed.
+
+Lemma Tr_create_other : forall f f' v w fl, f <> f' -> Tr f v w fl -> Tr f v w (fl_create f' fl).
+Proof.
+  intros f f' v w fl NE [E F]. unfold fl_create. split.
+  - apply Exists_cons_tl. apply Exists_filter_s. rewrite Exists_map_iff. rewrite Exists_exists in *.
+    destruct E as [x [Hx V]]. exists x. split; auto.
+    assert (U : f_unbind f' x = x).
+    { unfold f_unbind. destruct (f_is (f_vn x) f') eqn:E2; auto. apply f_is_eq in E2. congruence. }
+    rewrite U. split; auto. unfold f_alive. rewrite V. reflexivity.
+  - constructor; [simpl; intros X; congruence|]. apply Forall_filter_w. rewrite Forall_map_iff.
+    eapply Forall_impl_in; [exact F|]. intros x _ P V. rewrite unbind_vd, unbind_dd.
+    destruct (unbind_vn_cases f' x) as [U|U]; rewrite U in V; [discriminate|auto].
+Qed.
+
+Lemma Db_create_other : forall f f' fl, f <> f' -> Db f fl -> Db f (fl_create f' fl).
+Proof.
+  intros f f' fl NE [E F]. unfold fl_create. split.
+  - apply Exists_cons_tl. apply Exists_filter_s. rewrite Exists_map_iff. rewrite Exists_exists in *.
+    destruct E as [x [Hx [V D]]]. exists x. split; auto.
+    assert (U : f_unbind f' x = x).
+    { unfold f_unbind. destruct (f_is (f_vn x) f') eqn:E2; auto. apply f_is_eq in E2. congruence. }
+    rewrite U. repeat split; auto. unfold f_alive. rewrite V. reflexivity.
+  - constructor; [simpl; discriminate|]. apply Forall_filter_w. rewrite Forall_map_iff.
+    eapply Forall_impl_in; [exact F|]. intros x _ P D. rewrite unbind_dn in D. specialize (P D).
+    apply unbind_other_vn; auto.
+Qed.
+
+Lemma Db_syncdir : forall f fl, Exists (fun x => f_vn x = Some f) fl -> Db f (fl_syncdir fl).
+Proof.
+  intros f fl E. unfold fl_syncdir. split.
+  - apply Exists_filter_s. rewrite Exists_map_iff. rewrite Exists_exists in *. destruct E as [x [Hx V]].
+    exists x. split; auto. simpl. split; auto. unfold f_alive. simpl. rewrite V. reflexivity.
+  - apply Forall_filter_w. rewrite Forall_map_iff. rewrite Forall_forall. intros x _. simpl. auto.
+Qed.
+
+Lemma local_frame : forall f f' o v w fl,
+  f <> f' -> about f' o -> Tr f v w fl /\ Db f fl -> Tr f v w (local_fn o fl) /\ Db f (local_fn o fl).
+Proof.
+  intros f f' o v w fl NE AB [T D]. destruct o; simpl in AB; try contradiction; subst; simpl.
+  - split; [apply Tr_create_other | apply Db_create_other]; auto.
+  - split; [|apply Db_write; auto]. unfold fl_write. apply Tr_map_other; auto.
+    + intros y V. destruct (f_is (f_vn y) f') eqn:E; auto. apply f_is_eq in E. congruence.
+    + intros y. destruct (f_is (f_vn y) f'); simpl; auto.
+  - split; [|apply Db_writeat; auto]. unfold fl_writeat. apply Tr_map_other; auto.
+    + intros y V. destruct (f_is (f_vn y) f') eqn:E; auto. apply f_is_eq in E. congruence.
+    + intros y. destruct (f_is (f_vn y) f'); simpl; auto.
+  - split; [|apply Db_syncfile; auto]. unfold fl_syncfile. apply Tr_map_other; auto.
+    + intros y V. destruct (f_is (f_vn y) f') eqn:E; auto. apply f_is_eq in E. congruence.
+    + intros y. destruct (f_is (f_vn y) f'); simpl; auto.
+  - destruct (Tr_syncdir _ _ _ _ T) as [T2 D2]. auto.
+Qed.
+
+Lemma local_frame_list : forall f f' ops v w fl,
+  f <> f' -> Forall (about f') ops -> Tr f v w fl /\ Db f fl ->
+  Tr f v w (apply_local ops fl) /\ Db f (apply_local ops fl).
+Proof.
+  intros f f' ops. induction ops as [|o r IH]; intros v w fl NE AB H; [exact H|].
+  inversion AB; subst. change (apply_local (o :: r) fl) with (apply_local r (local_fn o fl)).
+  apply IH; auto. eapply local_frame; eauto.
+Qed.
+
+Lemma recv_file_about : forall d f nch b, Forall (about f) (recv_file_fs d f nch b).
+Proof. intros. unfold recv_file_fs. destruct (nch <=? 1); destruct b; simpl; repeat constructor. Qed.
+
+Lemma recv_file_local : forall d f nch b, Forall (local_to d) (recv_file_fs d f nch b).
+Proof. intros. unfold recv_file_fs. destruct (nch <=? 1); destruct b; simpl; repeat constructor. Qed.
+
+(* one file received in nch chunks and fsynced at its last chunk: durable, full *)
+Lemma recv_file_done : forall d f nch fl,
+  exists v, valid_snap v = true /\
+    Tr f v v (apply_local (recv_file_fs d f nch true) fl) /\ Db f (apply_local (recv_file_fs d f nch true) fl).
+Proof.
+  intros d f nch fl. unfold recv_file_fs. destruct (nch <=? 1); unfold apply_local; cbn [app fold_left local_fn].
+  - exists [T_HDR; T_TAIL]. split; [reflexivity|].
+    assert (T : Tr f [T_HDR; T_TAIL] [T_HDR; T_TAIL] (fl_syncfile f (fl_write f [T_HDR; T_TAIL] (fl_create f fl)))).
+    { apply Tr_syncfile with (w := []). apply (Tr_write f [] [] [T_HDR; T_TAIL]). apply Tr_create. }
+    apply Tr_syncdir. exact T.
+  - set (body := repeat T_BODY (N.to_nat (nch - 2))). exists (T_HDR :: body ++ [T_TAIL]).
+    split; [apply valid_writer|].
+    assert (T : Tr f [T_HDR] [] (fl_write f [T_HDR] (fl_create f fl))).
+    { apply (Tr_write f [] [] [T_HDR]). apply Tr_create. }
+    destruct (Tr_syncdir _ _ _ _ T) as [T2 D]. split.
+    + apply Tr_syncfile with (w := []).
+      apply (Tr_write f (T_HDR :: body) [] [T_TAIL]). apply (Tr_write f [T_HDR] [] body). exact T2.
+    + apply Db_syncfile. apply Db_write. apply Db_write. exact D.
+Qed.
+
+(* every file of the image is durable and has its full content when the last
+   chunk has been saved, i.e. before FinalizeSnapshot hands the image over *)
+Definition durable_full (f : fname) (fl : list fobj) : Prop :=
+  exists v, valid_snap v = true /\
+    Exists (fun x => f_vn x = Some f /\ f_dn x = Some f) fl /\
+    Forall (fun x => (f_vn x = Some f \/ f_dn x = Some f) -> f_dd x = v) fl.
+
+Lemma durable_full_of : forall f v fl, valid_snap v = true -> Tr f v v fl -> Db f fl -> durable_full f fl.
+Proof.
+  intros f v fl VS [E F] [DE DF]. exists v. split; auto. split; auto.
+  rewrite Forall_forall in *. intros x Hx [A|A]; [apply (F x Hx A) | apply (F x Hx (DF x Hx A))].
+Qed.
+
+Lemma received_files_durable_proved : forall i n m fl,
+  let fl' := apply_local (recvx_fs i n m) fl in
+  durable_full (FSnap i) fl' /\ durable_full (FOther 1) fl'.
+Proof.
+  intros i n m fl. unfold recvx_fs. rewrite chunk_sync_fact. cbv zeta. rewrite apply_local_app.
+  set (fl1 := apply_local (recv_file_fs (DRecv i) (FSnap i) n true) fl).
+  destruct (recv_file_done (DRecv i) (FSnap i) n fl) as [v (VS & T & D)]. fold fl1 in T, D.
+  destruct (recv_file_done (DRecv i) (FOther 1) m fl1) as [w (WS & T2 & D2)].
+  split.
+  - destruct (local_frame_list (FSnap i) (FOther 1) (recv_file_fs (DRecv i) (FOther 1) m true) v v fl1) as [T' D'];
+      [discriminate | apply recv_file_about | auto |]. apply (durable_full_of _ v); auto.
+  - apply (durable_full_of _ w); auto.
+Qed.
+
+Lemma recvx_gen_ok : forall i n m fl, gen_ok i (apply_local (recvx_fs i n m) fl).
+Proof.
+  intros i n m fl. unfold recvx_fs. rewrite chunk_sync_fact. rewrite apply_local_app.
+  set (fl1 := apply_local (recv_file_fs (DRecv i) (FSnap i) n true) fl).
+  destruct (recv_file_done (DRecv i) (FSnap i) n fl) as [v (VS & T & D)]. fold fl1 in T, D.
+  destruct (local_frame_list (FSnap i) (FOther 1) (recv_file_fs (DRecv i) (FOther 1) m true) v v fl1) as [T' D'];
+    [discriminate | apply recv_file_about | auto |]. apply (gen_ok_of_Tr i v); auto.
+Qed.
+
+Lemma recvx_local : forall i n m, Forall (local_to (DRecv i)) (recvx_fs i n m).
+Proof. intros. unfold recvx_fs. apply Forall_app. split; apply recv_file_local. Qed.
+
+Lemma cmd_recvx : forall s i n m t tr oc, i <> 0 -> J s ->
+  seq (exec s (mktemp_ops (DRecv i) ++ map OFs (recvx_fs i n m))) (finalize (DRecv i) i []) = (t, tr, oc) ->
+  allowed_run s tr /\ t = run s tr /\ J t.
+Proof.
+  intros [l r] i n m t tr oc NZ (G & HS & HG) H. set (d := DRecv i) in *.
+  set (l1 := fs_syncroot (fs_mkdir d l)). set (l2 := in_dir d (apply_local (recvx_fs i n m)) l1).
+  set (ops := mktemp_ops d ++ map OFs (recvx_fs i n m)) in *.
+  assert (E : exec (mkS l r) ops = (mkS l2 r, ops, true)).
+  { unfold ops. rewrite exec_app.
+    assert (E1 : exec (mkS l r) (mktemp_ops d) = (mkS l1 r, mktemp_ops d, true)) by reflexivity.
+    rewrite E1. rewrite (exec_local _ l1 r d).
+    - reflexivity.
+    - apply has_dir_mkdir_sync.
+    - apply recvx_local. }
+  assert (A1 : allowed_run (mkS l r) ops).
+  { apply allowed_run_static. unfold ops. apply Forall_app. split.
+    - apply static_mktemp. reflexivity.
+    - apply static_local_tmp with (d := d); [reflexivity | apply recvx_local]. }
+  pose proof (exec_run _ _ _ _ _ E) as R1.
+  rewrite E in H. apply seq_ok in H. destruct H as [tr2 [H ->]].
+  apply compose_ok with (s1 := mkS l2 r); auto.
+  assert (GF1 : gen_files l1).
+  { unfold gen_files. rewrite Forall_forall. intros o Ho. apply mkdir_sync_in in Ho.
+    destruct Ho as [V|[o0 [Ho0 ->]]].
+    - intros j X. unfold d in V. congruence.
+    - simpl. unfold GenGood in HG. simpl in HG. rewrite Forall_forall in HG. apply HG. exact Ho0. }
+  eapply finalize_ok; [exact NZ | right; reflexivity | left; reflexivity | | | exact H].
+  - split; [|split].
+    + rewrite R1. apply run_good; auto.
+    + unfold DSynced. simpl. apply in_dir_dsynced. apply syncroot_dsynced.
+    + unfold GenGood. simpl. apply in_dir_gen_other; auto. intros j. discriminate.
+  - simpl. unfold l2, in_dir. rewrite Forall_map_iff. rewrite Forall_forall. intros o Ho.
+    destruct (d_is (d_vn o) d) eqn:E2; simpl.
+    + intros _. apply recvx_gen_ok.
+    + intros V. apply d_is_neq in E2. contradiction.
+Qed.
+
 (* ---- every command ---- *)
 Lemma cmd_ok : forall ord s c t tr oc, ord_ok ord -> J s ->
   do_cmd ord s c = (t, tr, oc) -> allowed_run s tr /\ t = run s tr /\ J t.
@@ -1836,10 +2027,11 @@ Proof.
   intros ord s c t tr oc HO HJ H.
   assert (TRIV : forall oc', (s, @nil op, oc') = (t, tr, oc) -> allowed_run s tr /\ t = run s tr /\ J t).
   { intros oc' X. inversion X; subst. simpl. auto. }
-  destruct c as [i n | i | i n | i | i | i | | ]; cbn [do_cmd] in H.
+  destruct c as [i n | i | i n | i n m | i | i | i | | ]; cbn [do_cmd] in H.
   - destruct (i =? 0) eqn:E; [eapply TRIV; eauto|]. eapply cmd_save; eauto.
   - destruct (i =? 0) eqn:E; [eapply TRIV; eauto|]. apply N.eqb_neq in E. eapply cmd_commit; eauto.
   - destruct (i =? 0) eqn:E; [eapply TRIV; eauto|]. apply N.eqb_neq in E. eapply cmd_recv; eauto.
+  - destruct (i =? 0) eqn:E; [eapply TRIV; eauto|]. apply N.eqb_neq in E. eapply cmd_recvx; eauto.
   - eapply cmd_apply; eauto.
   - eapply cmd_shrink; eauto.
   - eapply cmd_compact; eauto.
@@ -1970,7 +2162,7 @@ Proof. intros. unfold recover_tail. vm_compute (recover_pos_sync <? recover_pos_
 (* every snapshot file of index i, in either view, holds the full image *)
 Definition FullAt (i : N) (s : state) : Prop :=
   Forall (fun o => d_dn o = Some (DFinal i) ->
-            Forall (fun f => f_dn f = Some (FSnap i) -> is_shrunk (f_dd f) = false) (d_files o)) (st_fs s).
+            Forall (fun f => f_dn f = Some (FSnap i) -> is_partial (f_dd f) = false) (d_files o)) (st_fs s).
 
 Lemma drun_app : forall a s b, drun s (a ++ b) = drun (drun s a) b.
 Proof. intros. unfold drun. apply fold_left_app. Qed.
@@ -1990,13 +2182,13 @@ Qed.
 Lemma read_after_crash : forall s i,
   Good s -> st_rec s = i -> i <> 0 ->
   exists d, read_file (DFinal i) (FSnap i) (fs_crash (st_fs s)) = Some d /\ valid_snap d = true /\
-            (FullAt i s -> is_shrunk d = false).
+            (FullAt i s -> is_partial d = false).
 Proof.
   intros [l r] i [[HI HR] _] RE NZ. simpl in *. subst r.
   set (cands := flat_map (fun o => if d_is (d_vn o) (DFinal i)
                   then flat_map (fun x => if f_is (f_vn x) (FSnap i) then [f_vd x] else []) (d_files o)
                   else []) (fs_crash l)).
-  assert (ALL : Forall (fun d => valid_snap d = true /\ (FullAt i (mkS l i) -> is_shrunk d = false)) cands).
+  assert (ALL : Forall (fun d => valid_snap d = true /\ (FullAt i (mkS l i) -> is_partial d = false)) cands).
   { rewrite Forall_forall. intros v Hv. unfold cands in Hv. apply in_flat_map in Hv. destruct Hv as [o' [Ho' Hv]].
     unfold fs_crash in Ho'. apply in_map_iff in Ho'. destruct Ho' as [o [<- Ho]]. apply filter_In in Ho. destruct Ho as [Ho _].
     simpl in Hv. destruct (d_is (d_dn o) (DFinal i)) eqn:E; [|contradiction]. apply d_is_eq in E.
@@ -2110,4 +2302,157 @@ Proof.
     + change (st_rec (run st (firstn k2 shr)) = i). rewrite RR. exact RE.
     + exact NZ.
     + right. exact S1c.
+Qed.
+
+(* ---------------------------------------------------------------------- *)
+(* on-disk state machines: the replica's own (metadata only) snapshot *)
+
+Lemma ondisk_save_syncs_fact : ondisk_save_syncs = true.
+Proof. vm_compute. reflexivity. Qed.
+
+Definition opb (b : N) (o : op) : bool :=
+  match o with OCrash => false | ORecord j => j =? b | OFs _ => true end.
+
+Lemma exec_sub : forall ops s u tr ok o, exec s ops = (u, tr, ok) -> In o tr -> In o ops.
+Proof.
+  intros ops s u tr ok o E I. destruct (exec_prefix _ _ _ _ _ E) as [rest ->]. apply in_or_app. auto.
+Qed.
+
+Lemma opb_run_rec : forall b ops s, forallb (opb b) ops = true -> st_rec s <= b -> st_rec (run s ops) <= b.
+Proof.
+  intros b ops. induction ops as [|o r IH]; intros s F L; [exact L|].
+  simpl in F. apply andb_true_iff in F. destruct F as [F1 F2]. rewrite run_cons. apply IH; auto.
+  unfold step'. destruct o as [f|j|]; simpl in *.
+  - destruct (fs_step (st_fs s) f); simpl; auto.
+  - apply N.eqb_eq in F1. subst j. lia.
+  - discriminate.
+Qed.
+
+Lemma opb_no_crash : forall b ops, forallb (opb b) ops = true -> ~ In OCrash ops.
+Proof.
+  intros b ops F I. rewrite forallb_forall in F. specialize (F _ I). discriminate.
+Qed.
+
+Lemma forallb_sub : forall {A} (p : A -> bool) l l',
+  (forall x, In x l -> In x l') -> forallb p l' = true -> forallb p l = true.
+Proof. intros A p l l' S F. rewrite forallb_forall in *. auto. Qed.
+
+Lemma forallb_firstn : forall {A} (p : A -> bool) k l, forallb p l = true -> forallb p (firstn k l) = true.
+Proof. intros A p k l F. eapply forallb_sub; [|exact F]. intros x. apply In_firstn. Qed.
+
+Definition commit_all_ops (i : N) : list op :=
+  flagfile_ops (DGen i) FMeta i ++ flagfile_ops (DGen i) FFlag i ++ rmdir_ops (DGen i) ++
+  finalize_rename (DGen i) i ++ commit_tail i.
+
+Lemma commit_trace_sub : forall ord s i t tr oc,
+  do_cmd ord s (CCommit i) = (t, tr, oc) -> forall o, In o tr -> In o (commit_all_ops i).
+Proof.
+  intros ord s i t tr oc H o I. cbn [do_cmd] in H. unfold commit_all_ops.
+  destruct (i =? 0); [inversion H; subst; contradiction|].
+  destruct (exec s (flagfile_ops (DGen i) FMeta i)) as [[s1 tr1] ok1] eqn:E1. unfold seq in H.
+  destruct ok1.
+  2:{ apply triple_eq in H. destruct H as (_ & <- & _). apply in_or_app. left. eapply exec_sub; eauto. }
+  unfold finalize, finalize_pre, seq in H.
+  destruct (exec s1 (flagfile_ops (DGen i) FFlag i)) as [[s2 tr2] ok2] eqn:E2.
+  destruct ok2.
+  2:{ apply triple_eq in H. destruct H as (_ & <- & _). apply in_app_or in I. destruct I as [I|I].
+      - apply in_or_app. left. eapply exec_sub; eauto.
+      - apply in_or_app. right. apply in_or_app. left. eapply exec_sub; eauto. }
+  destruct (has_dir (DFinal i) (st_fs s2)).
+  - destruct (exec s2 (rmdir_ops (DGen i))) as [[s3 tr3] ok3] eqn:E3.
+    apply triple_eq in H. destruct H as (_ & <- & _).
+    apply in_app_or in I. destruct I as [I|I]; [apply in_or_app; left; eapply exec_sub; eauto|].
+    apply in_app_or in I. apply in_or_app. right. destruct I as [I|I].
+    + apply in_or_app. left. eapply exec_sub; eauto.
+    + apply in_or_app. right. apply in_or_app. left. eapply exec_sub; eauto.
+  - destruct (exec s2 (finalize_rename (DGen i) i ++ commit_tail i)) as [[s3 tr3] ok3] eqn:E3. unfold fin in H.
+    apply triple_eq in H. destruct H as (_ & <- & _).
+    apply in_app_or in I. destruct I as [I|I]; [apply in_or_app; left; eapply exec_sub; eauto|].
+    apply in_app_or in I. apply in_or_app. right. destruct I as [I|I].
+    + apply in_or_app. left. eapply exec_sub; eauto.
+    + apply in_or_app. right. apply in_or_app. right. eapply exec_sub; eauto.
+Qed.
+
+Lemma commit_all_opb : forall i, forallb (opb i) (commit_all_ops i) = true.
+Proof.
+  intros i. unfold commit_all_ops. rewrite commit_tail_order. simpl. rewrite N.eqb_refl. reflexivity.
+Qed.
+
+Lemma compact_trace_sub : forall ord s j t tr oc,
+  do_cmd ord s (CCompact j) = (t, tr, oc) -> forall o, In o tr -> In o (rmdir_ops (DFinal j)).
+Proof.
+  intros ord s j t tr oc H o I. cbn [do_cmd] in H. destruct (st_rec s <=? j); [inversion H; subst; contradiction|].
+  destruct (exec s (rmdir_ops (DFinal j))) as [[u tr'] ok] eqn:E. unfold fin in H.
+  apply triple_eq in H. destruct H as (_ & <- & _). eapply exec_sub; eauto.
+Qed.
+
+Lemma restart_ok_norec : forall s, st_rec (ds_st s) = 0 -> restart_okb (dstep s (DBase OCrash)) = true.
+Proof. intros [[l r] v d] H. simpl in *. subst r. reflexivity. Qed.
+
+Lemma ondisk_save_restartable_proved : forall s lr ap k,
+  J (ds_st s) ->
+  (st_rec (ds_st s) = 0 \/ FullAt (st_rec (ds_st s)) (ds_st s) \/ st_rec (ds_st s) <= ds_smd s) ->
+  let '(_, tr, _) := cmd_save_ondisk s lr ap in
+  restart_okb (dstep (drun s (firstn k tr)) (DBase OCrash)) = true.
+Proof.
+  intros [st v d] lr ap k HJ H0. cbn [ds_st ds_smd ds_smv] in *.
+  assert (BASE : restart_okb (dstep (mkDS st v d) (DBase OCrash)) = true).
+  { destruct H0 as [Z|H0]; [apply restart_ok_norec; exact Z|].
+    destruct (N.eq_dec (st_rec st) 0) as [Z|NZ]; [apply restart_ok_norec; exact Z|].
+    apply crash_full_or_synced with (i := st_rec st); auto. apply HJ. }
+  unfold cmd_save_ondisk. cbn [ds_st ds_smd ds_smv].
+  destruct (negb (ap =? 0) && (st_rec st <? ap) && (ap =? v)) eqn:PRE.
+  2:{ destruct k; exact BASE. }
+  apply andb_true_iff in PRE. destruct PRE as [PRE P3]. apply andb_true_iff in PRE. destruct PRE as [P1 P2].
+  apply N.eqb_eq in P3. subst v. apply N.ltb_lt in P2.
+  destruct (exec st (save_ops_body ap [T_DUMMY])) as [[st1 tr1] ok1] eqn:E1.
+  assert (S1 : allowed_run st tr1 /\ st1 = run st tr1 /\ J st1).
+  { apply (cmd_save_body st ap [T_DUMMY] st1 tr1 (if ok1 then Done else Failed)); auto. rewrite E1. reflexivity. }
+  destruct S1 as (A1 & R1 & J1).
+  assert (OK : ord_ok (fun l : list dname => l)) by (intros l; apply Permutation_refl).
+  set (c2 := if ok1 then do_cmd (fun l => l) st1 (CCommit ap) else (st1, [], Failed)).
+  assert (S2 : exists st2 tr2 oc2, c2 = (st2, tr2, oc2) /\ allowed_run st1 tr2 /\ st2 = run st1 tr2 /\ J st2 /\
+               (forall o, In o tr2 -> In o (commit_all_ops ap))).
+  { unfold c2. destruct ok1.
+    - destruct (do_cmd (fun l => l) st1 (CCommit ap)) as [[st2 tr2] oc2] eqn:E2. exists st2, tr2, oc2.
+      destruct (cmd_ok _ _ _ _ _ _ OK J1 E2) as (A & R & JJ).
+      split; [reflexivity|]. split; [exact A|]. split; [exact R|]. split; [exact JJ|].
+      eapply commit_trace_sub; eauto.
+    - exists st1, [], Failed.
+      split; [reflexivity|]. split; [exact I|]. split; [reflexivity|]. split; [exact J1|]. intros o []. }
+  destruct S2 as [st2 [tr2 [oc2 (E2 & A2 & R2 & J2 & SUB2)]]]. rewrite E2.
+  set (c3 := match oc2 with
+             | Done => if negb (lr =? 0) && (lr <? ap) then do_cmd (fun l => l) st2 (CCompact lr) else (st2, [], Done)
+             | _ => (st2, [], Done) end).
+  assert (S3 : exists st3 tr3 oc3, c3 = (st3, tr3, oc3) /\ allowed_run st2 tr3 /\
+               (forall o, In o tr3 -> In o (rmdir_ops (DFinal lr)))).
+  { assert (NONE : exists st3 tr3 oc3, (st2, @nil op, Done) = (st3, tr3, oc3) /\ allowed_run st2 tr3 /\
+               (forall o, In o tr3 -> In o (rmdir_ops (DFinal lr)))).
+    { exists st2, [], Done. split; [reflexivity|]. split; [exact I|]. intros o []. }
+    unfold c3. destruct oc2; auto. destruct (negb (lr =? 0) && (lr <? ap)); auto.
+    destruct (do_cmd (fun l => l) st2 (CCompact lr)) as [[st3 tr3] oc3] eqn:E3. exists st3, tr3, oc3.
+    destruct (cmd_ok _ _ _ _ _ _ OK J2 E3) as (A & _ & _).
+    split; [reflexivity|]. split; [exact A|]. eapply compact_trace_sub; eauto. }
+  destruct S3 as [st3 [tr3 [oc3 (E3 & A3 & SUB3)]]]. rewrite E3.
+  rewrite ondisk_save_syncs_fact. cbn [app].
+  set (btr := tr1 ++ tr2 ++ tr3).
+  assert (AB : allowed_run st btr).
+  { unfold btr. apply allowed_run_app_i; auto. rewrite <- R1. apply allowed_run_app_i; auto. rewrite <- R2. exact A3. }
+  assert (OB : forallb (opb ap) btr = true).
+  { unfold btr. rewrite !forallb_app. rewrite !andb_true_iff. repeat split.
+    - eapply forallb_sub; [intros x Hx; eapply exec_sub; eauto|]. reflexivity.
+    - eapply forallb_sub; [exact SUB2|]. apply commit_all_opb.
+    - eapply forallb_sub; [exact SUB3|]. reflexivity. }
+  destruct k as [|k]; [exact BASE|].
+  cbn [firstn]. rewrite firstn_map_c.
+  change (drun (mkDS st ap d) (DSmSync :: map DBase (firstn k btr)))
+    with (drun (mkDS st ap ap) (map DBase (firstn k btr))).
+  rewrite drun_base; [|apply (opb_no_crash ap); apply forallb_firstn; exact OB].
+  cbn [ds_st ds_smv ds_smd].
+  set (st' := run st (firstn k btr)).
+  assert (G' : Good st') by (apply run_good; [apply HJ | apply allowed_run_firstn; exact AB]).
+  assert (L' : st_rec st' <= ap) by (apply opb_run_rec; [apply forallb_firstn; exact OB | lia]).
+  destruct (N.eq_dec (st_rec st') 0) as [Z|NZ].
+  - apply (restart_ok_norec (mkDS st' ap ap)). exact Z.
+  - apply crash_full_or_synced with (i := st_rec st'); auto.
 Qed.
